@@ -444,6 +444,275 @@ def normalise_function_names(trees: list[ast.Module]) -> list[str]:
     return done
 
 
+def _renumber(fn: ast.AST) -> None:
+    """After statements were spliced into ``fn``: give every statement a
+    line number that reflects its position (rules order statements by line);
+    the line a report should cite is kept as ``orig_lineno``."""
+    counter = [getattr(fn, "lineno", 1)]
+
+    def visit_block(stmts: list[ast.stmt]) -> None:
+        for st in stmts:
+            counter[0] += 1
+            new = counter[0]
+            for n in ast.walk(st):
+                if isinstance(n, ast.stmt) and n is not st:
+                    continue
+                if hasattr(n, "lineno"):
+                    if not hasattr(n, "orig_lineno"):
+                        n.orig_lineno = n.lineno   # type: ignore[attr-defined]
+            st_nodes = [st]
+            # expressions directly owned by this statement header
+            for fld, val in ast.iter_fields(st):
+                if fld in ("body", "orelse", "finalbody", "handlers", "cases"):
+                    continue
+                vals = val if isinstance(val, list) else [val]
+                for v in vals:
+                    if isinstance(v, ast.AST):
+                        st_nodes.extend(ast.walk(v))
+            for n in st_nodes:
+                if hasattr(n, "lineno"):
+                    n.lineno = new                 # type: ignore[attr-defined]
+                    n.end_lineno = new             # type: ignore[attr-defined]
+            for fld in ("body", "orelse", "finalbody"):
+                blk = getattr(st, fld, None)
+                if isinstance(blk, list) and blk and isinstance(blk[0],
+                                                                ast.stmt):
+                    visit_block(blk)
+            for h in getattr(st, "handlers", []) or []:
+                counter[0] += 1
+                h.orig_lineno = getattr(h, "orig_lineno", h.lineno)
+                h.lineno = counter[0]
+                visit_block(h.body)
+            for cse in getattr(st, "cases", []) or []:
+                visit_block(cse.body)
+    visit_block(getattr(fn, "body", []))
+
+
+def inline_new_helpers(trees: list[ast.Module]) -> list[str]:
+    """Undo "extract function": a function that is *not* in the pinned table,
+    is called at exactly one place in the package, as a whole statement
+    (``h(..)`` / ``x = h(..)`` / ``return h(..)``), is not a generator, has no
+    nested definitions and returns only through one trailing ``return`` (or
+    not at all) is substituted into its caller: parameters and locals get
+    fresh names, the trailing return becomes the assignment / return of the
+    call statement.  Rules that describe the body of an anchored function
+    then see that body whether or not a part of it was moved into a helper.
+    Anything else is left alone."""
+    try:
+        pinned = set(json.loads(PINNED_FUNCS_FILE.read_text()))
+    except FileNotFoundError:
+        return []
+    done: list[str] = []
+    for _round in range(16):
+        defs: dict[str, list[tuple[ast.Module, Optional[ast.ClassDef],
+                                   ast.FunctionDef]]] = {}
+        for tree in trees:
+            for st in tree.body:
+                if isinstance(st, ast.FunctionDef):
+                    defs.setdefault(st.name, []).append((tree, None, st))
+                elif isinstance(st, ast.ClassDef):
+                    for sub in st.body:
+                        if isinstance(sub, ast.FunctionDef):
+                            defs.setdefault(sub.name, []).append(
+                                (tree, st, sub))
+        progress = False
+        for name, lst in defs.items():
+            if len(lst) != 1:
+                continue
+            tree, cls, f = lst[0]
+            key = _def_key(cls.name if cls else None, name)
+            if key in pinned or name.startswith("__") or f.decorator_list:
+                continue
+            if any(isinstance(n, (ast.Yield, ast.YieldFrom, ast.Await,
+                                  ast.Global, ast.Nonlocal, ast.Lambda))
+                   for n in ast.walk(f)) or any(
+                    isinstance(n, (ast.FunctionDef, ast.ClassDef))
+                    for n in ast.walk(f) if n is not f):
+                continue
+            a = f.args
+            if a.vararg or a.kwarg or a.posonlyargs or a.kwonlyargs:
+                continue
+            body = list(f.body)
+            if body and isinstance(body[0], ast.Expr) and isinstance(
+                    body[0].value, ast.Constant) and isinstance(
+                    body[0].value.value, str):
+                body = body[1:]
+            rets = [n for st in body for n in ast.walk(st)
+                    if isinstance(n, ast.Return)]
+            tail = body[-1] if body and isinstance(body[-1], ast.Return) \
+                else None
+            if any(r is not tail for r in rets):
+                continue
+            # the single call site
+            sites = []
+            for t2 in trees:
+                for n in ast.walk(t2):
+                    if isinstance(n, ast.Call) and call_name(n) == name:
+                        sites.append((t2, n))
+                    elif isinstance(n, ast.Name) and n.id == name and not \
+                            isinstance(n.ctx, ast.Store):
+                        pass
+            refs = sum(1 for t2 in trees for n in ast.walk(t2)
+                       if (isinstance(n, ast.Name) and n.id == name)
+                       or (isinstance(n, ast.Attribute) and n.attr == name))
+            if len(sites) != 1 or refs != 1:
+                continue
+            t2, call = sites[0]
+            if any(isinstance(x, ast.Starred) for x in call.args) or any(
+                    k.arg is None for k in call.keywords):
+                continue
+            is_method = cls is not None
+            if is_method and not (isinstance(call.func, ast.Attribute)
+                                  and isinstance(call.func.value, ast.Name)
+                                  and call.func.value.id == "self"):
+                continue
+            if not is_method and not isinstance(call.func, ast.Name):
+                continue
+            # locate the statement and block that hold the call
+            holder = None
+            for n in ast.walk(t2):
+                for fld in ("body", "orelse", "finalbody"):
+                    blk = getattr(n, fld, None)
+                    if isinstance(blk, list):
+                        for i, st in enumerate(blk):
+                            if isinstance(st, (ast.Expr, ast.Assign,
+                                               ast.AnnAssign, ast.Return)) \
+                                    and getattr(st, "value", None) is call:
+                                holder = (blk, i, st)
+            if holder is None:
+                continue
+            blk, i, st = holder
+            params = [x.arg for x in a.args]
+            actuals: dict[str, ast.expr] = {}
+            pos = list(call.args)
+            if is_method:
+                actuals[params[0]] = ast.Name(id="self", ctx=ast.Load())
+                rest = params[1:]
+            else:
+                rest = params
+            if len(pos) > len(rest):
+                continue
+            for pn, av in zip(rest, pos):
+                actuals[pn] = av
+            for k in call.keywords:
+                actuals[k.arg] = k.value  # type: ignore[index]
+            defaults = dict(zip(params[len(params) - len(a.defaults):],
+                                a.defaults))
+            for pn in params:
+                if pn not in actuals and pn in defaults:
+                    actuals[pn] = defaults[pn]
+            if set(actuals) != set(params):
+                continue
+            import copy as _copy
+            locs = {n.id for x in body for n in ast.walk(x)
+                    if isinstance(n, ast.Name) and isinstance(n.ctx,
+                                                              ast.Store)}
+            # the function that holds the call site
+            encl = None
+            for n in ast.walk(t2):
+                if isinstance(n, (ast.FunctionDef, ast.AsyncFunctionDef)) \
+                        and any(x is call for x in ast.walk(n)):
+                    encl = n          # innermost wins (walk is top-down)
+            caller_names = {n.id for n in ast.walk(encl)
+                            if isinstance(n, ast.Name)
+                            and not any(n is y for y in ast.walk(st))} \
+                if encl is not None else set()
+            # returned names that land in a target of the same name need no
+            # renaming (the usual shape of an extracted block)
+            ret_names: list[Optional[str]] = []
+            tgt_names: list[Optional[str]] = []
+            if tail is not None and tail.value is not None and isinstance(
+                    st, ast.Assign) and len(st.targets) == 1:
+                rv, tv = tail.value, st.targets[0]
+                rl = list(rv.elts) if isinstance(rv, ast.Tuple) else [rv]
+                tl = list(tv.elts) if isinstance(tv, (ast.Tuple, ast.List)) \
+                    else [tv]
+                if len(rl) == len(tl):
+                    ret_names = [x.id if isinstance(x, ast.Name) else None
+                                 for x in rl]
+                    tgt_names = [x.id if isinstance(x, ast.Name) else None
+                                 for x in tl]
+            same = {r for r, t in zip(ret_names, tgt_names)
+                    if r is not None and r == t}
+            direct = {pn: av.id for pn, av in actuals.items()
+                      if isinstance(av, ast.Name) and pn not in locs}
+            ren = {}
+            for v in locs | (set(params) - set(direct)):
+                if v in caller_names and v not in same:
+                    ren[v] = f"{name}__{v}"
+                elif v in params and v not in direct and v in same:
+                    ren[v] = v
+                else:
+                    ren[v] = v
+            new_stmts: list[ast.stmt] = []
+            for pn in params:
+                if pn in direct:
+                    continue
+                if isinstance(actuals[pn], ast.Name) and \
+                        actuals[pn].id == ren[pn]:
+                    continue
+                new_stmts.append(ast.Assign(
+                    targets=[ast.Name(id=ren[pn], ctx=ast.Store())],
+                    value=actuals[pn], lineno=st.lineno, col_offset=0))
+            inl = [_copy.deepcopy(x) for x in body]
+            for x in inl:
+                for n in ast.walk(x):
+                    if isinstance(n, ast.Name):
+                        if n.id in direct:
+                            n.id = direct[n.id]
+                        elif n.id in ren:
+                            n.id = ren[n.id]
+            if tail is not None:
+                last = inl.pop()
+                val = last.value if last.value is not None else \
+                    ast.Constant(value=None)
+                if isinstance(st, ast.Return):
+                    inl.append(ast.Return(value=val))
+                elif isinstance(st, ast.Expr):
+                    inl.append(ast.Expr(value=val))
+                elif ret_names and len(ret_names) == len(tgt_names):
+                    vl = list(val.elts) if isinstance(val, ast.Tuple) \
+                        else [val]
+                    tv = st.targets[0]      # type: ignore[attr-defined]
+                    tl = list(tv.elts) if isinstance(tv, (ast.Tuple,
+                                                          ast.List)) else [tv]
+                    pairs = [(t, v) for t, v in zip(tl, vl)
+                             if not (isinstance(t, ast.Name) and isinstance(
+                                 v, ast.Name) and t.id == v.id)]
+                    for t, v in pairs:
+                        inl.append(ast.Assign(targets=[t], value=v))
+                else:
+                    new = _copy.copy(st)
+                    new.value = val
+                    inl.append(new)
+            else:
+                if isinstance(st, ast.Return):
+                    inl.append(ast.Return(value=ast.Constant(value=None)))
+                elif not isinstance(st, ast.Expr):
+                    new = _copy.copy(st)
+                    new.value = ast.Constant(value=None)
+                    inl.append(new)
+            for x in new_stmts + inl:
+                ast.copy_location(x, st)
+                for n in ast.walk(x):
+                    if not hasattr(n, "lineno"):
+                        n.lineno = st.lineno        # type: ignore[attr-defined]
+                        n.col_offset = 0            # type: ignore[attr-defined]
+            blk[i:i + 1] = new_stmts + inl
+            owner = cls.body if cls is not None else tree.body
+            owner.remove(f)
+            for t3 in trees:
+                ast.fix_missing_locations(t3)
+            if encl is not None:
+                _renumber(encl)
+            done.append(key)
+            progress = True
+            break       # definitions changed: recompute
+        if not progress:
+            break
+    return done
+
+
 def positionalise_calls(trees: list[ast.Module]) -> int:
     """Normal form for calls of package functions: keyword arguments that
     continue the positional prefix are turned into positional arguments
@@ -542,6 +811,8 @@ class Index:
             self.modules[modname] = mod
             pkg_flags[modname] = path.name == "__init__.py"
         self.normalised_functions = normalise_function_names(
+            [m.tree for m in self.modules.values()])
+        self.inlined_helpers = inline_new_helpers(
             [m.tree for m in self.modules.values()])
         self.normalised_params = normalise_params(
             [m.tree for m in self.modules.values()])
@@ -788,7 +1059,8 @@ class Report:
         self.obligations.append(Obligation(
             rule=rule, instance=instance, ok=bool(ok),
             file=fi.file if fi else "",
-            line=getattr(node, "lineno", 0) or (fi.node.lineno if fi else 0),
+            line=getattr(node, "orig_lineno", None) or getattr(
+                node, "lineno", 0) or (fi.node.lineno if fi else 0),
             func=fi.qualname if fi else "",
             stmt=norm_stmt(node) if node is not None else "",
             detail=detail, path=list(path),
